@@ -2,7 +2,7 @@
    the sender's 3-bit sequence counter.  Statements only; models in FastPacket.v (wire byte order, code with
    fixes/F-pad.patch), proofs in FastPacketProofs.v.
    `dok p` = "the PGN decode function returns normally on payload p"; call dok p = Deliver p if so, else DecRaise p. *)
-From NV Require Import Base FastPacket FastPacketProofs.
+From NV Require Import Base FastPacket FastPacketProofs FastPacketFrames.
 
 (* the encoder method on 0..223 bytes returns segment's frames and advances the counter *)
 Theorem C03_encode : forall seq p, zlen p <= 223 -> encode_fast seq p = (Ok (segment seq p), next_seq seq).
@@ -21,6 +21,18 @@ Theorem C03_shape : forall seq p, 0 <= seq < 8 -> zlen p <= 223 ->
     next_seq seq <> seq /\ 0 <= next_seq seq < 8.
 Proof. exact segment_shape. Qed.
 Print Assumptions C03_shape.
+
+(* on the frames themselves: every frame has 2..8 bytes (never more than a CAN frame holds), their number is the closed
+   form total_frames (1..32), byte 0 of frame k is seq*32+k (frame counters 0,1,2,... under one sequence counter) and
+   byte 1 of the first frame announces the total length *)
+Theorem C03_frames : forall seq p, 0 <= seq < 8 -> zlen p <= 223 ->
+  Forall (fun f => 2 <= zlen f <= 8) (segment seq p) /\
+  length (segment seq p) = Z.to_nat (total_frames (zlen p)) /\
+  1 <= total_frames (zlen p) <= 32 /\
+  (forall k f, nth_error (segment seq p) k = Some f -> hd_error f = Some (seq * 32 + Z.of_nat k)) /\
+  (forall f, hd_error (segment seq p) = Some f -> nth_error f 1 = Some (zlen p)).
+Proof. exact segment_frames. Qed.
+Print Assumptions C03_frames.
 
 (* inverse, one key: from ANY state whose record is absent or carries another counter, the frames in order give
    nothing for every proper prefix and exactly the payload at the last frame; the record is gone afterwards *)
